@@ -7,7 +7,8 @@ import random
 from .. import core, genpf, pytrack as pt, sx
 from . import modside as ms
 
-THEOREMS = ['C03.journal_is_declaration', 'C03.symbol_ids_injective', 'C03.ids_fit_in_a_byte', 'C03.memoisation_keeps_journal']
+THEOREMS = ['C03.journal_is_declaration', 'C03.memoisation_keeps_journal', 'C03.symbol_id_is_table_position',
+            'C03.symbol_ids_injective', 'C03.symbol_id_stable', 'C03.ids_fit_in_a_byte']
 
 
 def declared(m):
@@ -74,7 +75,7 @@ def id_module(i):
 
 def run(rep):
     rng = random.Random(rep.seed * 1000003 + 3)
-    ok, detail = core.proof_gate(rep, 'Pi2.Props.C03', THEOREMS)
+    ok, detail = core.proof_gate(rep, 'Pi2.Props.C02', THEOREMS)
     quick = rep.tier == 'quick'
     mods = ms.gen_modules(rng, 100 if quick else 2000)
     # diamond imports and duplicated axioms
